@@ -40,3 +40,82 @@ package executors
 //@   property C11
 //@   flag callbacks_noheap
 //@   ensures calls(bc.execute) == old(calls(bc.execute)) + 1
+
+// TaskContainer as an interface
+//@ ghost var ctAdds int
+//@ ghost var ctRemoveAlls int
+//@ ghost var ctExecutes int
+//@ ghost var ctBatch any
+//@ ghost var ctExecArg any
+//@ ghost var ctFull bool
+//@ extern func (c TaskContainer) AddTask
+//@   ensures ctAdds == old(ctAdds) + 1 && result == ctFull
+//@   modifies ctAdds, ctFull
+//@ extern func (c TaskContainer) RemoveAll
+//@   ensures ctRemoveAlls == old(ctRemoveAlls) + 1 && result == ctBatch
+//@   modifies ctRemoveAlls, ctBatch
+//@ extern func (c TaskContainer) Execute
+//@   ensures ctExecutes == old(ctExecutes) + 1 && ctExecArg == tasks
+//@   ensures_panic ctExecutes == old(ctExecutes) + 1 && ctExecArg == tasks
+//@   modifies ctExecutes, ctExecArg
+
+//@ func (pe *PeriodicalExecutor) hasTasks
+//@   property C11
+//@   ensures implies(tasks == nil, !result)
+//@   modifies nothing
+
+// every batch handed to executeTasks is executed once when non-empty; the wait group is released on every exit
+//@ func (pe *PeriodicalExecutor) executeTasks
+//@   property C11
+//@   ghost at after hasTasks#0: ht = ret
+//@   ensures wg(pe.waitGroup) == old(wg(pe.waitGroup)) - 1
+//@   ensures implies(result, ctExecutes == old(ctExecutes) + 1 && ctExecArg == tasks) && implies(!result, ctExecutes == old(ctExecutes))
+//@   ensures_panic false
+//@   modifies wg(pe.waitGroup), ctExecutes, ctExecArg
+
+//@ func (pe *PeriodicalExecutor) executeTasks closure 0
+//@   property C11
+//@   ensures ctExecutes == old(ctExecutes) + 1 && ctExecArg == tasks
+//@   ensures_panic ctExecutes == old(ctExecutes) + 1
+
+//@ func (pe *PeriodicalExecutor) doneExecution
+//@   property C11
+//@   ensures wg(pe.waitGroup) == old(wg(pe.waitGroup)) - 1
+//@   modifies wg(pe.waitGroup)
+
+// the background flusher may only quit when no threshold batch is waiting to be picked up
+//@ func (pe *PeriodicalExecutor) shallQuit
+//@   property C11
+//@   flag nolock
+//@   ensures implies(stop, pe.inflight == 0 && !pe.guarded && now - last > pe.interval * 10)
+//@   ensures implies(!stop, pe.guarded == old(pe.guarded))
+//@   modifies pe.guarded
+
+// addAndCheck: a full container is emptied at once and the batch is announced (inflight + 1) under the lock
+//@ func (pe *PeriodicalExecutor) addAndCheck
+//@   property C11
+//@   flag nolock
+//@   results batch, ok
+//@   requires pe.container != nil
+//@   ensures ctAdds == old(ctAdds) + 1
+//@   ensures implies(ok, ctFull && pe.inflight == old(pe.inflight) + 1 && ctRemoveAlls == old(ctRemoveAlls) + 1 && batch == ctBatch)
+//@   ensures implies(!ok, !ctFull && pe.inflight == old(pe.inflight) && ctRemoveAlls == old(ctRemoveAlls) && batch == nil)
+
+//@ func (pe *PeriodicalExecutor) backgroundFlush
+//@   trusted
+//@   modifies nothing
+
+//@ func (pe *PeriodicalExecutor) enterExecution
+//@   property C11
+//@   ensures wg(pe.waitGroup) == old(wg(pe.waitGroup)) + 1
+//@   modifies wg(pe.waitGroup)
+
+// Flush: one RemoveAll under the lock, and exactly that batch goes to executeTasks; enter/done are balanced
+//@ func (pe *PeriodicalExecutor) Flush
+//@   property C11
+//@   flag nolock
+//@   requires pe.container != nil
+//@   ensures ctRemoveAlls == old(ctRemoveAlls) + 1 && wg(pe.waitGroup) == old(wg(pe.waitGroup))
+//@   ensures implies(result, ctExecutes == old(ctExecutes) + 1 && ctExecArg == ctBatch) && implies(!result, ctExecutes == old(ctExecutes))
+//@   call executeTasks#0: assert arg_tasks == ctBatch
+//@   modifies wg(pe.waitGroup), ctExecutes, ctExecArg, ctRemoveAlls, ctBatch
